@@ -207,7 +207,35 @@ type c07Scenario struct {
 	faultAt    int64 // inject I/O error at this Read call (0 = none)
 	slowCons   bool
 	slowReader bool // the reader sleeps at every block start (Close/cancel meet it inside Read)
+	// foreign: the parent context is not one of package context's own types, so every
+	// context derived from it costs a watcher goroutine until it is released
+	foreign bool
 }
+
+// c07ForeignCtx is a cancellable context implemented outside package context.
+type c07ForeignCtx struct {
+	context.Context
+	done chan struct{}
+	mu   sync.Mutex
+	err  error
+}
+
+func (c *c07ForeignCtx) Done() <-chan struct{} { return c.done }
+func (c *c07ForeignCtx) Err() error {
+	c.mu.Lock()
+	defer c.mu.Unlock()
+	return c.err
+}
+func (c *c07ForeignCtx) cancel() {
+	c.mu.Lock()
+	defer c.mu.Unlock()
+	if c.err == nil {
+		c.err = context.Canceled
+		close(c.done)
+	}
+}
+
+const c07CtxWatcher = "context.(*cancelCtx).propagateCancel"
 
 // c07XMLDoc writes n objects; with filler > 0 a run of that many bytes of object-less tokens
 // (unknown elements, comments) is placed after object fillerAfter, and its offsets returned.
@@ -287,8 +315,17 @@ func c07Run(res *fw.Result, in c07Input, sc c07Scenario, key string) {
 	rd := mon.NewReader(in.data)
 	if sc.faultAt > 0 {
 		rd.FailAt, rd.FailErr = sc.faultAt, errInjected
+		if sc.faultAt%2 == 0 {
+			// a lost connection often surfaces as an error that wraps io.EOF; only the bare
+			// io.EOF value is the end of the stream, so the scan is still incomplete
+			rd.FailErr = errInjectedEOF
+		}
 	}
 	ctx, cancel := context.WithCancel(context.Background())
+	if sc.foreign {
+		fc := &c07ForeignCtx{Context: context.Background(), done: make(chan struct{})}
+		ctx, cancel = fc, fc.cancel
+	}
 	defer cancel()
 	index := map[c08Key]int{}
 	for i, k := range in.keys {
@@ -522,6 +559,14 @@ func c07Run(res *fw.Result, in c07Input, sc c07Scenario, key string) {
 	}
 	// always leave the process clean for the next case
 	s.Close()
+	if sc.foreign {
+		// Close has been called and the parent is possibly still live: whatever the scanner
+		// derived from the parent context must have been released
+		if left := mon.WaitNoLibGoroutines(c07CtxWatcher, 600); len(left) > 0 {
+			res.Violate(key+"/context-watcher-after-close", fmt.Sprintf("%d goroutine(s) watching the parent context on behalf of the scanner are still alive after Close (parent context implemented outside package context, stop=%s, k=%d)", len(left), sc.stop, sc.k), left)
+		}
+		res.Add("foreign_context_runs", 1)
+	}
 	if sc.target == "pbf" {
 		if left := mon.WaitNoLibGoroutines(c07Lib, 600); len(left) > 0 {
 			res.Violate(key+"/goroutines-after-final-close", fmt.Sprintf("%d osmpbf goroutines alive after the final Close", len(left)), left)
@@ -706,21 +751,32 @@ func c07Exec(c fw.Case) *fw.Result {
 			ks = append(ks, k)
 		}
 	}
-	for _, k := range ks {
+	for ki, k := range ks {
 		sc.k = k
-		key := fmt.Sprintf("C07/%s/%s", target, sc.stop)
-		if sc.faultAt > 0 {
-			key += "/fault"
+		// (cancelling a foreign parent reaches a derived context through a watcher goroutine,
+		// i.e. asynchronously by design of package context; the history model's "cancel takes
+		// effect at once" only holds for package context's own types, so foreign parents are
+		// used with Close and run-to-the-end stops only)
+		foreigns := []bool{(c.Seed>>3+uint64(ki))%2 == 1 && (sc.stop == "close" || sc.stop == "none")}
+		if c.Int("allk") == 1 && sc.stop == "close" {
+			foreigns = []bool{false, true}
 		}
-		c07Run(res, in, sc, key)
-		kc := "mid"
-		switch {
-		case k == 0:
-			kc = "k0"
-		case k >= N:
-			kc = "end"
+		for _, fo := range foreigns {
+			sc.foreign = fo
+			key := fmt.Sprintf("C07/%s/%s", target, sc.stop)
+			if sc.faultAt > 0 {
+				key += "/fault"
+			}
+			c07Run(res, in, sc, key)
+			kc := "mid"
+			switch {
+			case k == 0:
+				kc = "k0"
+			case k >= N:
+				kc = "end"
+			}
+			res.Eval(fmt.Sprintf("%s/%s/procs%d/%s/post%s/f%v/foreign%v", target, sc.stop, sc.procs, kc, sc.post, sc.faultAt > 0, sc.foreign))
 		}
-		res.Eval(fmt.Sprintf("%s/%s/procs%d/%s/post%s/f%v", target, sc.stop, sc.procs, kc, sc.post, sc.faultAt > 0))
 	}
 	res.Sample = map[string]any{"target": target, "size": c.Str("size"), "objects": N, "procs": sc.procs, "stop": sc.stop, "post": sc.post, "k_values": len(ks), "fault_at_read_call": sc.faultAt}
 	return res
